@@ -189,7 +189,7 @@ func (u *Unit) exec(fr *Frame, st *State, instr ssa.Instruction) {
 			} else {
 				u.assume(st, And(Le(IntLit(0), idx), Lt(idx, slen(s))))
 			}
-			fr.regs[in] = u.ctx.Define("eaddr", mkptr(sarr(s), Add(soff(s), idx)))
+			fr.regs[in] = u.ctx.Define("eaddr", mkptr(sarr(s), Eidx(soff(s), idx)))
 		case *types.Pointer:
 			at, ok := types.Unalias(ptrElem(in.X.Type())).Underlying().(*types.Array)
 			if !ok {
@@ -199,7 +199,7 @@ func (u *Unit) exec(fr *Frame, st *State, instr ssa.Instruction) {
 			if u.checks["index"] {
 				u.addObl(st, "panic/index", fmt.Sprintf("array index in range: %s", u.srcOf(in)), in.Pos(), And(Le(IntLit(0), idx), Lt(idx, IntLit(at.Len()))))
 			}
-			fr.regs[in] = u.ctx.Define("eaddr", mkptr(parr(p), Add(pidx(p), idx)))
+			fr.regs[in] = u.ctx.Define("eaddr", mkptr(parr(p), Eidx(pidx(p), idx)))
 		default:
 			unsupp("IndexAddr on %s", in.X.Type())
 		}
@@ -749,6 +749,14 @@ func (u *Unit) valEq(a, b Val) *Term {
 				other = bt
 			}
 			return Eq(sarr(other), NilRef)
+		}
+		if a.Sort == SPtr && bt.Sort == SPtr && (a.S == NilPtr.S || bt.S == NilPtr.S) {
+			// nil-ness of a pointer is "its object reference is nilref" (one notion everywhere)
+			other := a
+			if a.S == NilPtr.S {
+				other = bt
+			}
+			return Eq(parr(other), NilRef)
 		}
 		if a.Sort.IsBV() && !bt.Sort.IsBV() {
 			bt = u.intToBV(bt, a.Sort)
